@@ -155,7 +155,7 @@ def replay(path, seed):
         r = json.load(f)['replay']
     cfg = r['script']['cfg']
     run_ = P.ESRun(cfg['D'], cfg['lmin'], cfg['lmax'], version=cfg['version'], nrbe=cfg['nrbe'], auto=cfg['auto'], single=cfg['single'],
-                   boundary=cfg['boundary'], a=cfg['a'], b=cfg['b'], margin=cfg['margin'], peak=cfg.get('peak'))
+                   boundary=cfg['boundary'], a=cfg['a'], b=cfg['b'], margin=cfg['margin'], peak=cfg.get('peak'), extra=cfg.get('extra'), continue_via=cfg.get('continue_via', 'resume'))
     run_.evaluate()
     evs = [P.observe(run_)]
     for B in r['script']['steps']:
